@@ -1,6 +1,4 @@
 import GontainerModel.Props.C16
-#print axioms GM.C16.verbose_errs
-#print axioms GM.C16.validateOutput_errs
 #print axioms GM.C16.flags_narrow
 #print axioms GM.C16.accept_iff_rest_ignored
 #print axioms GM.C16.flags_only_in_validation
